@@ -70,6 +70,51 @@ example :
     normalizeParts "".toList = .error .invalidInput := by
   decide
 
+/-! ## Gates before effects -/
+
+/-- **Gates first** ("viewer sessions, expired sessions and write-disabled mode cannot mutate
+anything"): for every state of the file system and of the session table, every operation and every
+argument, unless the operation is a mutating one called with `write_enabled` by a token that names
+an unexpired editor session (`Op.mayMutate`), the file system after the operation is the file system
+before it and no mutation effect was performed on the way — in particular no directory is created
+before a check fails (the model performs the checks and the `std::fs` calls in program order). -/
+theorem c19_gates_first (w : World) (op : Op) (h : op.mayMutate w = false) :
+    (step w op).world.fs = w.fs ∧ ∀ e ∈ (step w op).effects, e.isMutation = false :=
+  readonly_ops w op h
+
+/-- A refused mutating operation also leaves the tracked documents (contents and versions) and
+the audit log untouched; only the session table may have been pruned / renewed. -/
+theorem c19_refused_keeps_documents (w : World) (tok : Nat) (p n : List Char) (e : Nat)
+    (c : List Char) (oc : Option (List Char)) (d we : Bool)
+    (h : (we && liveEditor w.inner tok w.now) = false) :
+    ∀ op ∈ [Op.apply tok p e c we, Op.create tok p d oc we, Op.rename tok p n we, Op.delete tok p we],
+      (step w op).world.inner.docs = w.inner.docs ∧ (step w op).world.inner.audit = w.inner.audit := by
+  intro op hop
+  simp only [List.mem_cons, List.not_mem_nil, or_false] at hop
+  rcases hop with rfl | rfl | rfl | rfl
+  · exact ⟨(applySource_quiet w tok p e c we h).2.1, (applySource_quiet w tok p e c we h).2.2.1⟩
+  · exact ⟨(createEntry_quiet w tok p d oc we h).2.1, (createEntry_quiet w tok p d oc we h).2.2.1⟩
+  · exact ⟨(renameEntry_quiet w tok p n we h).2.1, (renameEntry_quiet w tok p n we h).2.2.1⟩
+  · exact ⟨(deleteEntry_quiet w tok p we h).2.1, (deleteEntry_quiet w tok p we h).2.2.1⟩
+
+/-- Non-vacuity of the gate theorems: on a one-file project a viewer (token 0), an unknown token
+(7) and an editor with writes disabled are refused without any change, and the same rename by the
+editor (token 1) with writes enabled does create the parent directory and move the file. -/
+example :
+    let w0 : World := { fs := [(["p".toList], .dir), (["p".toList, "m.st".toList], .file "x".toList)],
+                        root := ["p".toList] }
+    let w1 := (step w0 (.createSession false)).world
+    let w := (step w1 (.createSession true)).world
+    let mv (t : Nat) (we : Bool) := step w (.rename t "m.st".toList "d/m.st".toList we)
+    (Op.rename 0 "m.st".toList "d/m.st".toList true).mayMutate w = false ∧
+    (Op.rename 7 "m.st".toList "d/m.st".toList true).mayMutate w = false ∧
+    (Op.rename 1 "m.st".toList "d/m.st".toList false).mayMutate w = false ∧
+    (Op.rename 1 "m.st".toList "d/m.st".toList true).mayMutate w = true ∧
+    (mv 0 true).world.fs = w.fs ∧ (mv 7 true).world.fs = w.fs ∧ (mv 1 false).world.fs = w.fs ∧
+    (mv 1 true).effects = [.mkdir ["p".toList, "d".toList],
+      .move ["p".toList, "m.st".toList] ["p".toList, "d".toList, "m.st".toList]] := by
+  decide
+
 /-! ## The document/version protocol (all interleavings of unlocked reads and locked sections) -/
 open Proto
 
